@@ -293,3 +293,29 @@ func (g *Gen) FanoutUnabsorbed(sc *Scenario) {
 	sc.RecMaxRetries = 1
 	sc.Healthy = false
 }
+
+// PartialDLQFailure rewrites sc into the family "several consecutive rejections
+// travel in ONE source batch (on arch-v2: one DLQ write) and the DLQ rejects one
+// of them that is not the last", i.e. the DLQ replies like NACK,ack,ack or
+// ack,NACK,ack. Only the dead-lettered prefix may be acknowledged or stored.
+func (g *Gen) PartialDLQFailure(sc *Scenario) {
+	s0 := &sc.Topo.Sources[0]
+	s0.Src.Batches = []int{g.pick(8, 6, 12)}
+	sc.Topo.Dests = sc.Topo.Dests[:1]
+	d := &sc.Topo.Dests[0]
+	d.Dst.NackPermille = 0
+	d.Dst.NackIdx = map[int]bool{}
+	at := 1 + g.R.Intn(4)
+	n := 3 + g.R.Intn(3)
+	for k := 0; k < n; k++ {
+		d.Dst.NackIdx[at+k] = true
+	}
+	if g.R.Intn(2) == 0 {
+		sc.Topo.DLQWindow, sc.Topo.DLQThresh = 0, 0 // no limit
+	} else {
+		sc.Topo.DLQWindow, sc.Topo.DLQThresh = 8, 6
+	}
+	sc.Topo.DLQ.NackPermille = 0
+	sc.Topo.DLQ.NackIdx = map[int]bool{at + g.R.Intn(n-1): true}
+	sc.Healthy = false
+}
